@@ -190,6 +190,8 @@ def doc(desc, original, s):
                     pos.update(range(lo, lo + 3))
         return dict(score=total, breach=pos, region=True)
     if k == "kmers":
+        if desc.get("reference") is not None:
+            return None      # explicit references: covered by the model correspondence and the C08 laws, no documented formula here
         a, b, _ = loc_of(desc, n)
         kk = desc["k"]
         use_rc = desc["rc"]
